@@ -16,6 +16,7 @@ fn table() -> Vec<(&'static str, RunFn, ReplayFn, &'static str)> {
         ("C09", vh::c09::run, vh::c09::replay, vh::c09::RULE),
         ("C10", vh::c10::run, vh::c10::replay, vh::c10::RULE),
         ("C11", vh::c11::run, vh::c11::replay, vh::c11::RULE),
+        ("C12", vh::c12::run, vh::c12::replay, vh::c12::RULE),
         ("C13", vh::c13::run, vh::c13::replay, vh::c13::RULE),
         ("C14", vh::c14::run, vh::c14::replay, vh::c14::RULE),
         ("C15", vh::c15::run, vh::c15::replay, vh::c15::RULE),
